@@ -26,7 +26,9 @@ RULE = ("(0) timesim: seeded operation histories on a pool of Time objects (cons
         "infinity); (2) clock-jump fault: at a dump every pickled Time and the quotient column of the pickled heap is "
         "shifted by Q in {2**10 .. 2**52}; the continuation resumed in a fresh interpreter must commit exactly the "
         "events of the unjumped continuation - same handlers, positions, velocities and remainders bit for bit, "
-        "quotients larger by Q - while the shadow clock watches the operations at the large quotients; non-trivial "
+        "quotients larger by Q - while the shadow clock watches the operations at the large quotients; a dump the "
+        "jumped system writes itself is resumed once more and must continue bit for bit like the jumped run "
+        "(nothing a dump stores loses resolution at large times); non-trivial "
         "= run with >= 200 checked operations, or jump with >= 20 compared events")
 ASSUMPTIONS = ["operands are those the system produces (displacements 1e-16 .. 1e3 and +inf); negative displacements "
                "(rounding of tiny event distances) are skipped and counted",
@@ -166,6 +168,28 @@ def execute(task, package_dir):
         stats = resumed.get("clock_stats", {})
         summary["probes"] = {"c14_jump_tail_events_compared": len(resumed["log"]),
                              "c14_operations_checked_after_jump": stats.get("checked", 0)}
+        # second generation: a dump the system wrote itself while living at the large clock is resumed in yet another
+        # fresh interpreter; nothing the dump stores may have lost resolution there
+        later = [(s2, p2) for s2, p2 in resumed.get("dumps", []) if len(resumed["log"]) - s2 >= 5]
+        if later:
+            step2, path2 = later[int(plan_["which"] * len(later)) % len(later)]
+            tail = len(resumed["log"]) - step2
+            second = crashsim.resume_in_fresh_interpreter(
+                scratch_root, path2, out_dir, plan_["hashseed"] + 1,
+                stop_after=tail if resumed["status"] == "stopped" else None, tag="jump2")
+            if second["status"] in ("failed", "no_result"):
+                summary["violations"].append({"property": ID, "oracle": "resume_of_a_dump_written_after_the_jump_failed",
+                                              "step": start, "detail": {"q": q, "error": second.get("error")}})
+                summary["status"] = "violation"
+                return summary
+            diff = crashsim.compare_tail(resumed["log"], [], step2 - 1, second, compare_writes=False)
+            if diff is not None:
+                summary["violations"].append({"property": ID, "oracle": "dump_written_after_the_jump_resumes_differently",
+                                              "step": start, "detail": dict(diff, q=q, events_after_jump=step2)})
+                summary["status"] = "violation"
+                return summary
+            summary["probes"]["c14_second_generation_events_compared"] = len(second["log"])
+            summary["faults"]["dump_and_resume_at_the_large_clock"] = 1
         summary["notes"] = {"c14_largest_quotient_seen": stats.get("largest_quotient", 0.0)}
         summary["distinct"] = ["%s/%d/%g" % (task.get("family"), scn["seed"], q)]
         summary["nontrivial"] = len(resumed["log"]) >= 20
